@@ -17,7 +17,8 @@ pub enum PEntry {
     BadFile { name: Vec<u8>, via_link: u8 },
     Dir { name: Vec<u8> },
     LinkToFile { name: Vec<u8>, content: String, chain: bool },
-    LinkToDir { name: Vec<u8> },
+    /// relative = the link text is relative to the env directory (the Kubernetes `..data -> ..<timestamp>` layout)
+    LinkToDir { name: Vec<u8>, relative: bool },
     Dangling { name: Vec<u8> },
 }
 
@@ -63,7 +64,7 @@ fn pentry() -> impl Strategy<Value = PEntry> {
         8 => (fname(), content()).prop_map(|(name, content)| PEntry::File { name, content }),
         2 => fname().prop_map(|name| PEntry::Dir { name }),
         3 => (fname(), content(), any::<bool>()).prop_map(|(name, content, chain)| PEntry::LinkToFile { name, content, chain }),
-        2 => fname().prop_map(|name| PEntry::LinkToDir { name }),
+        2 => (fname(), any::<bool>()).prop_map(|(name, relative)| PEntry::LinkToDir { name, relative }),
         1 => fname().prop_map(|name| PEntry::Dangling { name }),
     ]
 }
@@ -133,19 +134,19 @@ fn pentry_json(e: &PEntry) -> Value {
         PEntry::BadFile { name, via_link } => json!({"bad_file": bytes_to_json(name), "via_link": via_link}),
         PEntry::Dir { name } => json!({"dir": bytes_to_json(name)}),
         PEntry::LinkToFile { name, content, chain } => json!({"link_to_file": bytes_to_json(name), "content": content, "chain": chain}),
-        PEntry::LinkToDir { name } => json!({"link_to_dir": bytes_to_json(name)}),
+        PEntry::LinkToDir { name, relative } => json!({"link_to_dir": bytes_to_json(name), "relative": relative}),
         PEntry::Dangling { name } => json!({"dangling": bytes_to_json(name)}),
     }
 }
 fn pentry_from_json(v: &Value) -> PEntry {
-    let (k, x) = v.as_object().unwrap().iter().find(|(k, _)| k.as_str() != "content" && k.as_str() != "chain" && k.as_str() != "via_link").unwrap();
+    let (k, x) = v.as_object().unwrap().iter().find(|(k, _)| k.as_str() != "content" && k.as_str() != "chain" && k.as_str() != "via_link" && k.as_str() != "relative").unwrap();
     let name = json_to_bytes(x);
     match k.as_str() {
         "file" => PEntry::File { name, content: v["content"].as_str().unwrap().into() },
         "bad_file" => PEntry::BadFile { name, via_link: v["via_link"].as_u64().unwrap_or(0) as u8 },
         "dir" => PEntry::Dir { name },
         "link_to_file" => PEntry::LinkToFile { name, content: v["content"].as_str().unwrap().into(), chain: v["chain"].as_bool().unwrap() },
-        "link_to_dir" => PEntry::LinkToDir { name },
+        "link_to_dir" => PEntry::LinkToDir { name, relative: v["relative"].as_bool().unwrap_or(false) },
         _ => PEntry::Dangling { name },
     }
 }
@@ -249,7 +250,7 @@ fn check_inner(scratch: &Path, c: &Case, classes: &std::cell::RefCell<Vec<&'stat
             let mut used: std::collections::BTreeSet<Vec<u8>> = Default::default();
             for (i, e) in entries.iter().enumerate() {
                 let name = match e {
-                    PEntry::File { name, .. } | PEntry::BadFile { name, .. } | PEntry::Dir { name } | PEntry::LinkToFile { name, .. } | PEntry::LinkToDir { name } | PEntry::Dangling { name } => name.clone(),
+                    PEntry::File { name, .. } | PEntry::BadFile { name, .. } | PEntry::Dir { name } | PEntry::LinkToFile { name, .. } | PEntry::LinkToDir { name, .. } | PEntry::Dangling { name } => name.clone(),
                 };
                 if !used.insert(name.clone()) {
                     continue;
@@ -295,11 +296,19 @@ fn check_inner(scratch: &Path, c: &Case, classes: &std::cell::RefCell<Vec<&'stat
                         }
                         expected_env.insert(name, content.clone().into_bytes());
                     }
-                    PEntry::LinkToDir { .. } => {
-                        let t = targets.join(format!("d{i}"));
-                        std::fs::create_dir(&t).unwrap();
-                        std::fs::write(t.join("X"), b"x").unwrap();
-                        std::os::unix::fs::symlink(&t, &p).unwrap();
+                    PEntry::LinkToDir { relative, .. } => {
+                        if *relative {
+                            // `..data -> ..2026_01_01` next to it, inside the env directory
+                            let t = env.join(format!("..ts-{i}"));
+                            std::fs::create_dir(&t).unwrap();
+                            std::fs::write(t.join("X"), b"x").unwrap();
+                            std::os::unix::fs::symlink(format!("..ts-{i}"), &p).unwrap();
+                        } else {
+                            let t = targets.join(format!("d{i}"));
+                            std::fs::create_dir(&t).unwrap();
+                            std::fs::write(t.join("X"), b"x").unwrap();
+                            std::os::unix::fs::symlink(&t, &p).unwrap();
+                        }
                     }
                     PEntry::Dangling { .. } => {
                         has_dangling = true;
@@ -378,7 +387,14 @@ fn check_inner(scratch: &Path, c: &Case, classes: &std::cell::RefCell<Vec<&'stat
     };
     let args: Vec<OsString> = if c.build_phase { vec![layers_arg.clone(), d.platform.clone().into(), d.plan.clone().into()] } else { vec![d.platform.clone().into(), d.plan.clone().into()] };
     let script = json!({"dump": true, "detect": "pass", "build": {"kind": "ok"}});
-    let out = bprun::run(&BpRun { root: &root, exe_name: if c.build_phase { "build" } else { "detect" }, args, env, script: &script, extra_env: vec![] });
+    // every third case: the same process has just run a complete detect/build of another buildpack (libcnb_runtime_detect /
+    // _build are public for programmatic use) — nothing of that may show in this context
+    let mut extra_env: Vec<(OsString, OsString)> = vec![];
+    if hash_of(&case_json(c).to_string()) % 3 == 0 {
+        classes.borrow_mut().push("second-invocation-in-one-process");
+        extra_env.push(("VBP_WARMUP_ROOT".into(), bprun::prepare_warmup(&root).into_os_string()));
+    }
+    let out = bprun::run(&BpRun { root: &root, exe_name: if c.build_phase { "build" } else { "detect" }, args, env, script: &script, extra_env });
     let what = format!("exit {:?}, markers {:?}, stderr {:?}", out.code, out.markers, out.stderr.chars().take(300).collect::<String>());
     let r = (|| -> Check {
         let bad_file_input = c.build_phase && c.bad_input != 0;
@@ -507,7 +523,7 @@ fn nontrivial(c: &Case) -> bool {
 }
 
 pub fn run(ctx: &Ctx) {
-    ctx.set_rule("contexts of real detect/build executions of a scripted buildpack that dumps its context: platform directories (0..8 entries: files with byte-string names incl. dots, spaces, '=', newline, non-UTF-8 and UTF-8 contents incl. empty/trailing newlines/multi-line/padded; sub-directories; symlinks to files (direct and chained), to directories, dangling; env dir missing; platform dir missing), buildpack plans (0..4 entries with nested metadata of every TOML kind), store tables or no store.toml, descriptors with optional fields/targets/nested metadata, CNB_TARGET_* values from {unset (optional only), '', linux, v8, unicode, padded}, three spellings of CNB_BUILDPACK_DIR and the layers argument; separately generated classes with one unrepresentable value (non-UTF-8 file content in a regular file or behind one or two symlinks, non-UTF-8 value of a mandatory target variable, non-UTF-8 CNB_TARGET_ARCH_VARIANT, store.toml with non-UTF-8 bytes, store.toml being a directory, buildpack plan with non-UTF-8 bytes). Inputs are emitted by the harness's own TOML emitter. Oracle: field-by-field equality of the dump with the generated inputs (directories after lexical normalisation); unrepresentable value => reported error (non-zero exit, error handler once, no context) — non-UTF-8 file content handed on byte for byte is accepted too, as are a reported error for a dangling link or a missing platform directory and 'no store' for a directory at store.toml. Non-trivial: platform env has >= 1 file plus >= 1 symlink/directory, or plan/store/descriptor metadata nested >= 2; distinct = hash of the case.");
+    ctx.set_rule("contexts of real detect/build executions of a scripted buildpack that dumps its context: platform directories (0..8 entries: files with byte-string names incl. dots, spaces, '=', newline, non-UTF-8 and UTF-8 contents incl. empty/trailing newlines/multi-line/padded; sub-directories; symlinks to files (direct and chained), to directories (absolute, and relative to the env directory like Kubernetes' ..data), dangling; env dir missing; platform dir missing), buildpack plans (0..4 entries with nested metadata of every TOML kind), store tables or no store.toml, descriptors with optional fields/targets/nested metadata, CNB_TARGET_* values from {unset (optional only), '', linux, v8, unicode, padded}, three spellings of CNB_BUILDPACK_DIR and the layers argument; separately generated classes with one unrepresentable value (non-UTF-8 file content in a regular file or behind one or two symlinks, non-UTF-8 value of a mandatory target variable, non-UTF-8 CNB_TARGET_ARCH_VARIANT, store.toml with non-UTF-8 bytes, store.toml being a directory, buildpack plan with non-UTF-8 bytes). Every third case runs as the SECOND detect/build in its process, after a complete run of another buildpack with other inputs. Inputs are emitted by the harness's own TOML emitter. Oracle: field-by-field equality of the dump with the generated inputs (directories after lexical normalisation); unrepresentable value => reported error (non-zero exit, error handler once, no context) — non-UTF-8 file content handed on byte for byte is accepted too, as are a reported error for a dangling link or a missing platform directory and 'no store' for a directory at store.toml. Non-trivial: platform env has >= 1 file plus >= 1 symlink/directory, or plan/store/descriptor metadata nested >= 2; distinct = hash of the case.");
     ctx.assume("paths and argv are UTF-8");
     let scratch = Scratch::new("c06");
     for (_p, v) in ctx.regress_files() {
